@@ -127,7 +127,59 @@ def svd_sequences(maxlen, narg=3, ks=(1, 3, 4), maxconv=2, timeout=900):
     return seqs, info
 
 
+def pub_sequences(maxlen, nev=2, ncv=5, timeout=900):
+    """All public call histories of MC_IRPubGen (IRPublic.tla) up to length maxlen, as lists of history tokens for harness/ir_run.h
+    ('N', 'I', 'V1', 'V2', 'Z', 'C0'..'C3', 'F1'); every prefix is a history of its own, so the dump's states at ALL depths are used."""
+    cdir = os.path.join(ROOT, ".cache", "kry")
+    os.makedirs(cdir, exist_ok=True)
+    h = hashlib.sha256()
+    for f in ("IRPublic.tla", "MC_IRPubGen.tla"):
+        with open(os.path.join(SPEC, f), "rb") as fh:
+            h.update(fh.read())
+    h.update(("%d/%d/%d" % (maxlen, nev, ncv)).encode())
+    key = "pub_" + h.hexdigest()[:16]
+    cfile = os.path.join(cdir, key + ".json")
+    if os.path.exists(cfile):
+        with open(cfile) as fh:
+            o = json.load(fh)
+        return o["seqs"], o["info"]
+    wd = os.path.join(cdir, key + ".work")
+    shutil.rmtree(wd, ignore_errors=True)
+    os.makedirs(wd)
+    cfg = os.path.join(wd, "gen.cfg")
+    with open(cfg, "w") as fh:
+        fh.write("SPECIFICATION GSpec\nCONSTANTS\n  Nev = %d\n  Ncv = %d\n  MaxLen = %d\n  MxOf <- MC_MxOf\n" % (nev, ncv, maxlen))
+        fh.write("INVARIANTS GenTypeOK GenStatusIffAll GenInitMakesFresh GenNotComputedBefore\nCHECK_DEADLOCK FALSE\n")
+    dump = os.path.join(wd, "states.dump")
+    cmd = vlib.tlc_cmd("MC_IRPubGen.tla", cfg, 4, os.path.join(wd, "md"), xmx="6g", extra=["-dump", dump])
+    p = subprocess.run(cmd, cwd=SPEC, stdout=subprocess.PIPE, stderr=subprocess.STDOUT, universal_newlines=True, timeout=timeout)
+    ok = "Model checking completed. No error has been found." in p.stdout
+    mm = re.search(r"(\d+) states generated, (\d+) distinct states found", p.stdout)
+    info = dict(ok=ok, states=int(mm.group(2)) if mm else 0, generated=int(mm.group(1)) if mm else 0, module="MC_IRPubGen", maxlen=maxlen, nev=nev, ncv=ncv)
+    seqs = set()
+    if ok:
+        with open(dump) as fh:
+            for line in fh:
+                if line.startswith("/\\ hist = "):
+                    toks = re.findall(r"<<([^<>]*)>>", line[len("/\\ hist = <<"):])
+                    seqs.add(",".join(_tok(t).replace(":", "") for t in toks))
+    else:
+        info["stdout_tail"] = p.stdout[-2000:]
+    seqs = sorted(seqs)
+    shutil.rmtree(wd, ignore_errors=True)
+    if ok:
+        with open(cfile, "w") as fh:
+            json.dump(dict(seqs=seqs, info=info), fh)
+    return seqs, info
+
+
 if __name__ == "__main__":
+    if sys.argv[1] == "pub":
+        s, info = pub_sequences(int(sys.argv[2]))
+        print(info, len(s))
+        for x in s[:10] + s[-10:]:
+            print(repr(x))
+        sys.exit(0)
     if sys.argv[1] == "svd":
         s, info = svd_sequences(int(sys.argv[2]))
         print(info, len(s))
